@@ -426,7 +426,7 @@ def c12(run):
     for (args, stdin_file, i, how), rc in results:
         if rc == -999:
             timeouts += 1
-        elif rc not in (0, 1):
+        elif rc == 101 or rc < 0 or rc >= 128:      # a panic or a signal; any other status is an ordinary error exit
             bad += 1
             run.violation("panic:binary:%s:exit%s" % (how, rc), "rsbdd %s (%s, input in%d.bin) ended with status %s" % (" ".join(args), how, i, rc),
                           {"mode": "bytes", "hex": open(os.path.join(indir, "in%d.bin" % i), "rb").read().hex(), "as": how, "argv_opts": [a for a in args if not a.startswith("/")]})
@@ -457,7 +457,7 @@ def replay_bytes(prop, rp):
     for args in (["%s" % f, "-t"], ["--evaluate=a & b | zz", "-o", f, "-t"]):
         rc, out = checks_cli.run_rsbdd(args + rp.get("argv_opts", []), None, timeout=60)
         log("rsbdd %s -> %s" % (args, rc))
-        if rc not in (0, 1, -999):
+        if rc != -999 and (rc == 101 or rc < 0 or rc >= 128):
             ok = False
     return ok
 
